@@ -259,6 +259,9 @@ impl Stream for PutqStream {
                             out.violation("C09", "accepted-unexpected", format!("a reply for request {tid} was accepted although it {}", if spoof { "came from another address" } else { "was no longer outstanding" }));
                         } else {
                             out.violation("C08", if *what == "ok" { "ack-dropped" } else { "error-dropped" }, format!("the {} of {genuine_to} to request {tid} of this put was accepted by the socket in time, but the put does not recognise its own request and did not count it", if *what == "ok" { "acknowledgement" } else { "error reply" }));
+                            if self.mutable && (*what == "301" || *what == "302") {
+                                out.violation("C17", "rejection-dropped", format!("{genuine_to} rejected the mutable item with {what} (request {tid}, in time): the put does not recognise its own request, so the rejection never counts towards CasFailed / NotMostRecent"));
+                            }
                         }
                         out.count("reply-not-owned");
                         "unowned".into()
@@ -426,11 +429,12 @@ pub fn run(out: &mut Out, seed: u64, thorough: bool, replay: Option<&str>) {
             }
         }
     }
-    // ---- 3xx majorities and minorities, early failure
+    // ---- 3xx majorities and minorities, early failure (also with the id counter wrapping inside the burst)
     for kind in ["mut", "imm", "ann"] {
         for n in [1usize, 2, 3, 5, 6] {
             for k301 in 0..=n {
-                case(out, &mut s, kind, 0, 0, None);
+                let wrap = if n >= 5 && k301 % 2 == 0 { Some(u32::MAX as u64 - (k301 as u64 % 4) - 1) } else { None };
+                case(out, &mut s, kind, 0, 0, wrap);
                 out.run(&mut s, format!("start {n} 0"));
                 for i in 0..n {
                     let what = if i < k301 { "301" } else if rng.chance(1, 2) { "302" } else { "ok" };
